@@ -19,6 +19,7 @@ UNITS = ['libfs', 'libxcp', 'xcp']
 VERIFICATION_MSGS = [
     'postcondition not satisfied',
     'precondition not satisfied',
+    'precondition not met',
     'invariant not satisfied',
     'decreases not satisfied',
     'assertion failed',
